@@ -10,6 +10,10 @@ class ParseError(Exception):
 
 def parse(msg, description, cond_text):
     """-> dict(location=(file, line, scope), entries=[(key, value_text | ('all', [(name, text)]))])"""
+    # continuation lines of an attribute chain (`a\n    .b`): the library reports the decorator's source dedented, so the
+    # amount of indentation in front of the dot is not compared
+    msg = re.sub(r"\n[ \t]+\.", "\n.", msg)
+    cond_text = re.sub(r"\n[ \t]+\.", "\n.", cond_text)
     lines = msg.split("\n")
     m = LOC_RE.match(lines[0]) if lines else None
     if not m:
@@ -48,8 +52,15 @@ def parse_entries(body):
     i = 0
     while i < len(blines):
         line = blines[i]
-        if " was " not in line:
-            raise ParseError("value line without ' was ': %r" % line)
+        # the text of a sub-expression may span several source lines: the key runs up to the line holding ' was '
+        j = i
+        while " was " not in blines[j]:
+            j += 1
+            if j >= len(blines):
+                raise ParseError("value line without ' was ': %r" % line)
+        if j > i:
+            line = "\n".join(blines[i:j + 1])
+            i = j
         key, val = line.split(" was ", 1)
         if val == "False, e.g., with":
             inputs = []
